@@ -4,10 +4,12 @@ from framework import *
 import ppgen, ppx
 from props import c06
 
-PARTIAL = ("proved for every input: strip on/off end in the same error or the same define table (C18_same_table_and_error, a "
-           "simulation of the two event loops through includes and macro expansion) outside the known class of `include "
-           "names produced by a macro; that the non-comment token sequences coincide and that no comment survives is tied by "
-           "correspondence and the token oracle, not by a theorem")
+PARTIAL = ("proved for every input, outside the known class of `include names produced by a macro: strip on/off end in the same "
+           "error or the same define table (C18_same_table_and_error), and the output with the flag is the output without it in "
+           "which the texts of some Comment nodes are replaced by nothing, one blank or one newline, everything else equal and "
+           "in the same order, through includes and macro expansion (C18_output_differs_only_at_comments). That the Comment "
+           "nodes of pp_parser are exactly the comments (so that the non-comment token sequences coincide and no comment "
+           "survives outside kept `define bodies) is the parser's part: tied by correspondence and the token oracle")
 
 TOK = re.compile(r'"(?:[^"\\\n]|\\.)*"|//[^\n]*\n?|/\*.*?\*/|[A-Za-z0-9_$]+|\s+|.', re.S)
 
@@ -53,6 +55,10 @@ SEP = [
     "`ifdef A\n`else// c\nq`endif r\n", "`timescale 1ns/1ps// c\nx\n", "`celldefine/* c */x\n",
     "`define M(a) a/**/a\n`M(p)\n`M(/**/q)\n", "`define N x //tail\n`N y\n", "a`__LINE__/**/b\n",
     "`include \"i.svh\"// c\nx/**/y\n", "a// c\r\nb\n",
+    # a usage whose expansion is nothing but a comment, in front of an `include on the same line: the same verdict both ways
+    "`define MARK /* nothing here */\n`MARK `include \"i.svh\"\n", "`define ID(x) x\n`ID(/* only a comment */) `include \"i.svh\"\n",
+    "`define E\n`E `include \"i.svh\"\n", "`define MARK /* n */\nq\n`MARK\n`include \"i.svh\"\n", "`define C2 // c\n`C2 `include \"i.svh\"\n",
+    "/* c */ `include \"i.svh\"\n", "`include \"i.svh\" /* c */ `MARK2\n", "`define K3 /* a */ /* b */\n`K3 `K3 `include \"i.svh\" `K3\n",
     # a one-line comment ends at the end of its line, whatever its last character is
     "x // path C:\\dir\\\nwire keep_me ;\n", "x // c \\\r\nwire keep_me ;\n", "// \\\n`define K 1\n`K\n", "y /* c \\*/ z // d\\\\\nw\n",
     # comments inside (multi-line) actual arguments
